@@ -79,7 +79,8 @@ TailMenu ==
                            Edit("p"), Edit("q"), AddUser("q", "user.go"), DelUser("q", "user.go"), DelOut("p", "a"), AddUser("p", "notes.txt"),
                            DelSum, Corrupt("drop"), Corrupt("wrong"), Corrupt("garbage"), Corrupt("truncate"),
                            Corrupt("shuffle"), Corrupt("noise"),                   \* damage that keeps every entry readable
-                           AddUser("q", ".#types.go"), DelUser("q", ".#types.go") }  \* an editor's lock file (a dangling symbolic link): the directory cannot be hashed
+                           AddUser("q", ".#types.go"), DelUser("q", ".#types.go"),   \* an editor's lock file (a dangling symbolic link): the directory cannot be hashed
+                           AddUser("q", "gengo.sum") }   \* a file of that name in a package that is not the module root is a file like any other
       [] Menu = "C02" -> { Run(TRUE, FALSE, PQR, G3, f) : f \in AllFaults } \cup
                          { Run(FALSE, FALSE, <<"r", "q">>, <<"b", "a">>, f) : f \in AllFaults } \cup
                          (IF Lite THEN {} ELSE { Run(TRUE, TRUE, <<"r">>, G3, f) : f \in {x \in AllFaults : x.pkg # "q"} })
